@@ -68,7 +68,8 @@ Render(b) == IF b.fin = "hid" THEN <<>> ELSE RenderFrom(Tpl(b.tpl), 1, <<>>, <<>
 (* ------------------------------ state ---------------------------------- *)
 SInit(w, h, multi, mphid, align) ==
     [w |-> w, h |-> h, multi |-> multi, mphid |-> mphid, align |-> align,
-     above |-> <<>>, order |-> <<>>, bars |-> <<>>, ids |-> {}, bottom |-> 0, everBottom |-> align = "bottom", blanked |-> FALSE, faulty |-> FALSE, wasCut |-> FALSE, pty |-> FALSE]
+     above |-> <<>>, order |-> <<>>, bars |-> <<>>, ids |-> {}, bottom |-> 0, everBottom |-> align = "bottom", blanked |-> FALSE, faulty |-> FALSE, wasCut |-> FALSE, pty |-> FALSE,
+     ghosts |-> FALSE]      \* a member was unlinked by set_draw_target / added again: its old slot still counts for index-based insertion
 
 NewBar(r, vis, inmp) ==
     [tpl |-> r.tpl, msg |-> r.m0, prefix |-> r.p0, pos |-> r.pos0, len |-> r.len, fin |-> "no",
@@ -112,6 +113,9 @@ SatSub(a, b) == IF a >= b THEN a - b ELSE 0
 (* region empty (MultiProgress::clear).                                    *)
 Res(S, log, forced, blank) == [S |-> S, log |-> log, forced |-> forced, blank |-> blank]
 Plain(S) == Res(S, <<>>, FALSE, FALSE)
+
+LogItem(l) == [k |-> "log", l |-> l]
+StItem(b) == [k |-> "st", b |-> b]
 
 Apply(S, r) ==
     LET b == r.b
@@ -181,10 +185,29 @@ Apply(S, r) ==
             IN Res(S2, <<>>, vis /\ B.fin = "no", FALSE)
       [] r.op = "mp_remove" ->
             IF b \in S.ids /\ B.inmp
-            THEN Plain(AllowVanish([SetBar(S, b, [B EXCEPT !.vis = FALSE, !.inmp = FALSE, !.static = FALSE])
-                                       EXCEPT !.order = Remove(S.order, b),
-                                              !.above = SelectSeq(S.above, LAMBDA it : ~(it.k = "st" /\ it.b = b))]))
+            (* the MultiProgress repaints at once without the removed bar's lines *)
+            THEN Res([SetBar(S, b, [B EXCEPT !.vis = FALSE, !.inmp = FALSE, !.static = FALSE])
+                         EXCEPT !.order = Remove(S.order, b),
+                                !.above = SelectSeq(S.above, LAMBDA it : ~(it.k = "st" /\ it.b = b))], <<>>, ~S.mphid, FALSE)
             ELSE Plain(S)
+      [] r.op = "set_target" ->
+            (* ProgressBar::set_draw_target.  A member of a MultiProgress is unlinked: the MultiProgress repaints without its   *)
+            (* lines; a standalone bar just stops using its old target, so what that painted last stays on the terminal as text *)
+            LET v == r.target \in {"spy", "spy_hz"} IN
+            IF S.multi
+            THEN IF B.inmp
+                 THEN Res([SetBar(S, b, [B EXCEPT !.vis = FALSE, !.inmp = FALSE, !.drawn = FALSE, !.pend = <<>>, !.onscr = <<>>])
+                              EXCEPT !.order = Remove(S.order, b), !.ghosts = TRUE], <<>>, vis, FALSE)
+                 ELSE Plain(S)
+            ELSE LET left == IF vis /\ B.drawn THEN [j \in 1..Len(B.onscr) |-> LogItem(B.onscr[j])] ELSE <<>>
+                 IN Plain([SetBar(S, b, [B EXCEPT !.vis = v, !.drawn = FALSE, !.pend = <<>>, !.onscr = <<>>])
+                              EXCEPT !.above = S.above \o left, !.order = IF v THEN Append(Remove(S.order, b), b) ELSE Remove(S.order, b),
+                                     !.ghosts = S.ghosts \/ (vis /\ B.drawn)])
+      [] r.op = "readd" ->
+            (* MultiProgress::add of a bar that exists already: it becomes the last member; if it was a member its old lines are *)
+            (* cleared at once (and it is painted again by its next draw)                                                       *)
+            Res([SetBar(S, b, [B EXCEPT !.vis = ~S.mphid, !.inmp = TRUE, !.drawn = FALSE, !.pend = <<>>, !.onscr = <<>>])
+                    EXCEPT !.order = Append(Remove(S.order, b), b), !.ghosts = S.ghosts \/ B.inmp], <<>>, vis /\ B.inmp, FALSE)
       [] r.op = "mp_println" -> IF S.mphid THEN Plain(S) ELSE Res(AllowVanish(S), TextLines(r.m), TRUE, FALSE)
       [] r.op = "mp_suspend" -> Res(AllowVanish(S), Split(r.m), ~S.mphid, FALSE)
       [] r.op = "mp_clear"   -> IF S.mphid THEN Plain(S) ELSE Res(AllowVanish(S), <<>>, TRUE, TRUE)
@@ -193,8 +216,6 @@ Apply(S, r) ==
       [] OTHER -> Plain(S)
 
 (* --------------------------- expected screens -------------------------- *)
-LogItem(l) == [k |-> "log", l |-> l]
-StItem(b) == [k |-> "st", b |-> b]
 
 RECURSIVE AboveLinesFrom(_, _, _)
 AboveLinesFrom(S, items, i) ==
